@@ -629,6 +629,14 @@ class Recorder:
                 if c.disp_ret_seq is None and c.terminal() is None and c.sub is not None:
                     c.dispose()
 
+    feed_on_terminal = None  # id of a hot source the subscriber pushes a value into from inside its own terminal handler
+
+    def _terminal_feed(self):
+        if self.feed_on_terminal is not None and not getattr(self, "_fed", False):
+            self._fed = True
+            self.w.fired.append((self.w.tick(), "subscriber:%s:feeds_back_from_terminal_handler" % self.name, 0))
+            self.w.sources[self.feed_on_terminal]._broadcast("N", ("after-terminal",))
+
     def _terminal_raise(self):
         # only while no subscribe() call is in progress anywhere on the stack: a callback that raises while a pipeline (or a
         # part re-subscribed later by repeat / concat / while_do) is being assembled aborts the assembly half-way, and what was
@@ -642,6 +650,7 @@ class Recorder:
         self.events.append((w.tick(), w.now(), "E", e))
         self._drop_children()
         self._react()
+        self._terminal_feed()
         self._terminal_raise()
 
     def on_completed(self):
@@ -649,6 +658,7 @@ class Recorder:
         self.events.append((w.tick(), w.now(), "C", None))
         self._drop_children()
         self._react()
+        self._terminal_feed()
         self._terminal_raise()
 
     # views
